@@ -118,6 +118,11 @@ def _extra_configs(tier):
     for w in W:
         for rv in (0, 1, (1 << w) - 1):
             out.append({'block': 'RegTwoDomains', 'w': w, 'rv': rv})
+    # two clock domains ticking on the same edge (base clock and a clock gated from it), registers wired across them in both
+    # directions; the gated domain discovered first / second
+    for w in W:
+        for first in ('base', 'gated'):
+            out.append({'block': 'GatedDomains', 'w': w, 'first': first})
     # chains: output of one block feeding the next
     firsts = ['Add', 'Sub', 'Mul', 'Not', 'Reg', 'Counter', 'ShiftLeft', 'Mux2', 'Neg', 'SignExtend']
     seconds = ['Add', 'Sub', 'Not', 'Reg', 'Equal', 'Abs', 'ShiftRight', 'Range', 'EqualConstant', 'Comparator']
@@ -245,6 +250,24 @@ def _build_extra(d):
         q0 = O('q0', w)
         P.Reg(hw, 'r0', x, q0, reset_value=d['rv'])
         P.Reg(hw, 'r1', q0, O('q1', w), enable=I('e'), reset=I('rst'), reset_value=d['rv'])
+    elif b == 'GatedDomains':
+        w = d['w']
+        a, en = I('a', w), I('en')
+        m, o, back = hw.wire('m', w), O('o', w), O('back', w)
+        en_out = hw.wire('en_out')
+        gdrv = P.ClockDriver('gclk', base=hw.clockDriver, enable=en_out, wire=hw.clockDriver.wire)
+
+        def base_part():
+            P.Reg(hw, 'r1', a, m)
+            P.Reg(hw, 'r3', o, back)            # base domain register fed by the gated one
+
+        def gated_part():
+            P.GatedClock(hw, 'gate', en, en_out, gdrv)
+            r2 = P.Reg(hw, 'r2', m, o)
+            r2.clockDriver = gdrv
+        for part in ((base_part, gated_part) if d['first'] == 'base' else (gated_part, base_part)):
+            part()
+        outs.append(('m', m))
     elif b == 'Chain':
         w = d['w']
         mid = _chain_first(d['first'], hw, I, w)
